@@ -185,6 +185,7 @@ theorem items_iter (env : Env B H) (rest : Bytes) (it : H × Bytes) (its' : List
        else .inr (hdrState its' (hs ++ [it.1]) p', 0)) ∧
     p' ≤ (itemBytes its').length ∧ p' ≤ env.hdrMax := by
   intro I nl p'
+  have hp1 : p ≤ I.length := hp1
   obtain ⟨hb1, hb2, hdec⟩ := hit
   have hI : I = it.2 ++ itemBytes its' := itemBytes_cons it its'
   have hIl : I.length = it.2.length + (itemBytes its').length := by rw [hI, List.length_append]
@@ -238,5 +239,159 @@ theorem items_iter (env : Env B H) (rest : Bytes) (it : H × Bytes) (its' : List
         simp [hz, afterBatch, hie, hdrState]
     · rw [if_neg hc, if_neg hc]
       rfl
+
+
+theorem nextLen_hdrState (env : Env B H) (its : List (H × Bytes)) (hs : List H) (p : Nat) :
+    nextLen env (hdrState its hs p).state = min (itemBytes its).length env.hdrMax := rfl
+
+/-- the rest of the current batch: from a codec in the middle of a `Headers` message, one `read`
+returns the batch completed by the next `k = min (32 - |hs|) |its|` items, and leaves the codec either
+idle (no item left) or in the middle of the message with an empty batch -/
+theorem readLoop_items (env : Env B H) (rest : Bytes) :
+    ∀ (its : List (H × Bytes)) (fuel : Nat) (hs : List H) (p br al : Nat),
+      (∀ it ∈ its, ItemWF env it) → its ≠ [] → its.length < 2^64 → hs.length < 32 →
+      p ≤ (itemBytes its).length → p ≤ env.hdrMax → 32 - hs.length ≤ fuel →
+      ∃ p' br' al', p' ≤ (itemBytes (its.drop (min (32 - hs.length) its.length))).length ∧ p' ≤ env.hdrMax ∧
+        readLoop env flatOps fuel (hdrState its hs p) ((itemBytes its).drop p ++ rest) br al =
+          { res := .msg (.headers (hs ++ (its.take (min (32 - hs.length) its.length)).map (·.1))
+                          (its.length - min (32 - hs.length) its.length)),
+            bytesRead := br', alloc := al',
+            codec := afterBatch (its.drop (min (32 - hs.length) its.length)) p',
+            sock := (itemBytes (its.drop (min (32 - hs.length) its.length))).drop p' ++ rest } := by
+  intro its
+  induction its with
+  | nil => intro fuel hs p br al _ h; exact absurd rfl h
+  | cons it its' ih =>
+    intro fuel hs p br al hwf _ hlen hhs hp1 hp2 hfuel
+    have hit : ItemWF env it := hwf it (by simp)
+    have hwf' : ∀ x ∈ its', ItemWF env x := fun x hx => hwf x (by simp [hx])
+    have hlen' : its'.length + 1 < 2^64 := by simpa using hlen
+    obtain ⟨hfill, hstep, hp'1, hp'2⟩ := items_iter env rest it its' hs p hit hlen' hp1 hp2
+    cases fuel with
+    | zero => omega
+    | succ fuel =>
+      have hnl := nextLen_hdrState env (it :: its') hs p
+      by_cases hc : (hs ++ [it.1]).length = 32 ∨ its'.length = 0
+      · -- the batch is complete with this item
+        rw [if_pos hc] at hstep
+        have hk : min (32 - hs.length) (it :: its').length = 1 := by
+          simp only [List.length_cons, List.length_append, List.length_nil] at hc ⊢
+          omega
+        have e := readLoop_inl env flatOps fuel (hdrState (it :: its') hs p) _ _ _ _ br al _ _
+          (by rw [hnl]; exact hfill) (by rw [hnl]; exact hstep)
+        refine ⟨min (itemBytes (it :: its')).length env.hdrMax - it.2.length,
+          br + (nextLen env (hdrState (it :: its') hs p).state - (hdrState (it :: its') hs p).buffer.length),
+          al + (nextLen env (hdrState (it :: its') hs p).state - (hdrState (it :: its') hs p).buffer.length) +
+            min 32 its'.length * env.hdrMem, ?_, hp'2, ?_⟩
+        · rw [hk]; exact hp'1
+        · rw [e, hk]
+          simp
+      · -- continue with the next item
+        rw [if_neg hc] at hstep
+        have hc' : hs.length + 1 < 32 ∧ its' ≠ [] := by
+          simp only [List.length_append, List.length_cons, List.length_nil, not_or] at hc
+          refine ⟨by omega, ?_⟩
+          intro h; rw [h] at hc; simp at hc
+        have e := readLoop_inr env flatOps fuel (hdrState (it :: its') hs p) _ _ _ _ br al _
+          (by rw [hnl]; exact hfill) (by rw [hnl]; exact hstep)
+        obtain ⟨p'', br', al', q1, q2, q3⟩ := ih fuel (hs ++ [it.1]) _ _ _ hwf' hc'.2 (by omega)
+          (by simp; omega) hp'1 hp'2 (by simp; omega)
+        have hk : min (32 - hs.length) (it :: its').length = min (32 - (hs ++ [it.1]).length) its'.length + 1 := by
+          simp only [List.length_cons, List.length_append, List.length_nil]
+          omega
+        refine ⟨p'', br', al', ?_, q2, ?_⟩
+        · rw [hk]; exact q1
+        · rw [e, q3, hk]
+          simp only [List.take_succ_cons, List.drop_succ_cons, List.map_cons, List.length_cons,
+            List.append_assoc, List.singleton_append, Nat.add_sub_add_right]
+
+
+theorem take_min_length {α : Type} (l : List α) (n : Nat) : l.take (min n l.length) = l.take n := by
+  by_cases h : n ≤ l.length
+  · rw [Nat.min_eq_left h]
+  · have h' : l.length ≤ n := by omega
+    rw [Nat.min_eq_right h', List.take_length, List.take_of_length_le h']
+
+theorem drop_min_length {α : Type} (l : List α) (n : Nat) : l.drop (min n l.length) = l.drop n := by
+  by_cases h : n ≤ l.length
+  · rw [Nat.min_eq_left h]
+  · have h' : l.length ≤ n := by omega
+    rw [Nat.min_eq_right h', List.drop_length, List.drop_of_length_le h']
+
+/-- all remaining batches of a `Headers` message, read one `Codec::read` per batch -/
+theorem chain_batches (env : Env B H) (attach : Message B H → Option Nat) (hat : AttachOK attach) (rest : Bytes) :
+    ∀ (f : Nat) (its : List (H × Bytes)) (p : Nat), its.length ≤ f → its ≠ [] →
+      (∀ it ∈ its, ItemWF env it) → its.length < 2^64 → p ≤ (itemBytes its).length → p ≤ env.hdrMax →
+      Chain env attach (hdrState its [] p) ((itemBytes its).drop p ++ rest) (batches f (its.map (·.1))) idle rest := by
+  intro f
+  induction f with
+  | zero => intro its p h hne; cases its with
+    | nil => exact absurd rfl hne
+    | cons a t => simp at h
+  | succ f ih =>
+    intro its p hlen hne hwf h64 hp1 hp2
+    obtain ⟨p', br', al', q1, q2, q3⟩ := readLoop_items env rest its READ_FUEL [] p 0 0 hwf hne h64 (by simp)
+      hp1 hp2 (by simp [READ_FUEL_eq])
+    simp only [List.length_nil, Nat.sub_zero, List.nil_append] at q1 q3
+    rw [take_min_length, drop_min_length] at q3
+    rw [drop_min_length] at q1
+    have hr : ReadsTo env (hdrState its [] p) ((itemBytes its).drop p ++ rest)
+        (.headers ((its.take 32).map (·.1)) (its.length - min 32 its.length))
+        (afterBatch (its.drop 32) p') ((itemBytes (its.drop 32)).drop p' ++ rest) := by
+      unfold ReadsTo read
+      rw [q3]; exact ⟨rfl, rfl, rfl⟩
+    have hnx := nextCodec_none (attach := attach) (afterBatch (its.drop 32) p') _
+      (hat.2.1 ((its.take 32).map (·.1)) (its.length - min 32 its.length))
+    have hie : (its.map (·.1)).isEmpty = false := by cases its <;> simp_all
+    have hrem : its.length - min 32 its.length = (its.map (·.1)).length - HEADER_BATCH_SIZE := by
+      rw [List.length_map, HBS]; omega
+    simp only [batches, hie, HBS]
+    rw [← List.map_take, ← List.map_drop, List.length_map]
+    rw [show its.length - 32 = its.length - min 32 its.length by omega]
+    by_cases hd : its.drop 32 = []
+    · have hb : batches f ((its.drop 32).map (·.1)) = ([] : List (Message B H)) := by
+        rw [hd]; cases f <;> simp [batches]
+      rw [hb]
+      have ha : afterBatch (its.drop 32) p' = (idle : Codec H) := by simp [afterBatch, hd]
+      rw [ha] at hr hnx
+      rw [hd, itemBytes_nil, List.drop_nil, List.nil_append] at hr
+      simp only [Bool.false_eq_true, if_false]
+      exact Chain.single hr hnx
+    · have ha : afterBatch (its.drop 32) p' = hdrState (its.drop 32) [] p' := by
+        have : (its.drop 32).isEmpty = false := by
+          cases h : its.drop 32 with
+          | nil => exact absurd h hd
+          | cons a t => rfl
+        simp [afterBatch, this]
+      rw [ha] at hr hnx
+      have hl : (its.drop 32).length ≤ f := by
+        rw [List.length_drop]
+        have : its.length ≠ 0 := fun h => hne (List.eq_nil_of_length_eq_zero h)
+        omega
+      have := ih (its.drop 32) p' hl hd (fun it hit => hwf it (List.mem_of_mem_drop hit))
+        (by rw [List.length_drop]; omega) q1 q2
+      exact Chain.cons hr hnx this
+
+/-- the item count of a `Headers` frame: two bytes are pulled, the state becomes `BlockHeaders` -/
+theorem readLoop_count (env : Env B H) (fuel : Nat) (L n : Nat) (rest : Bytes) (hL : 2 ≤ L) (hn : n < 2^16) (br al : Nat) :
+    readLoop env flatOps (fuel + 1) { buffer := [], state := .header (.known T_Headers L) } (writeU16 n ++ rest) br al =
+      readLoop env flatOps fuel { buffer := [], state := .blockHeaders (L - 2) n [] } rest (br + 2)
+        (al + 2 + min HEADER_BATCH_SIZE n * env.hdrMem) := by
+  have hnl : nextLen env (State.header (.known T_Headers L) : State H) = 2 := by
+    simp only [nextLen, if_true, HEADERS_COUNT_LEN]; omega
+  have hf := fill_flat (H := H) (.header (.known T_Headers L)) [] (writeU16 n) rest 2 (by simp [writeU16])
+  have hr : readU16 (writeU16 n) = .ok (n, []) := by
+    have := readU16_write n hn []
+    rwa [List.append_nil] at this
+  have hs : stepState env ({ buffer := writeU16 n, state := .header (.known T_Headers L) } : Codec H) 2 =
+      .inr ({ buffer := [], state := .blockHeaders (L - 2) n [] }, min HEADER_BATCH_SIZE n * env.hdrMem) := by
+    have h2 : (writeU16 n).length = 2 := rfl
+    have ht : (writeU16 n).take 2 = writeU16 n := by rw [← h2]; exact List.take_length
+    have hd : (writeU16 n).drop 2 = [] := by rw [← h2]; exact List.drop_length
+    have hL' : ¬ L < 2 := by omega
+    simp only [stepState, h2, Nat.lt_irrefl, if_false, if_true, ht, hd, hr, hL']
+  have := readLoop_inr env flatOps fuel { buffer := [], state := .header (.known T_Headers L) } _ _ _ _ br al _
+    (by rw [hnl]; simpa using hf) (by rw [hnl]; simpa using hs)
+  rw [this, hnl]; rfl
 
 end GV.Codec
